@@ -98,20 +98,21 @@ Theorem C17_good_string : forall a, good_string a = true <-> goodw a.
 Proof. exact good_string_iff. Qed.
 Print Assumptions C17_good_string.
 
-(* is_good: every character is an SMT character and the length is below i32::MAX *)
-Theorem C17_is_good_iff : forall s, smt_is_good s = true <-> goodw s /\ (Z.of_nat (length s) < MAX_LENGTH)%Z.
+(* is_good: every character is an SMT character and the length is at most i32::MAX (after repair D12) *)
+Theorem C17_is_good_iff : forall s, smt_is_good s = true <-> goodw s /\ (Z.of_nat (length s) <= MAX_LENGTH)%Z.
 Proof. exact is_good_iff. Qed.
 Print Assumptions C17_is_good_iff.
 
 (* for the strings a test can build (shorter than i32::MAX) is_good is goodw *)
-Theorem C17_is_good_iff_goodw : forall s, (Z.of_nat (length s) < MAX_LENGTH)%Z -> (smt_is_good s = true <-> goodw s).
+Theorem C17_is_good_iff_goodw : forall s, (Z.of_nat (length s) <= MAX_LENGTH)%Z -> (smt_is_good s = true <-> goodw s).
 Proof. exact is_good_iff_goodw. Qed.
 Print Assumptions C17_is_good_iff_goodw.
 
-(* the length bounds of make (n > MAX_LENGTH panics) and is_good (n < MAX_LENGTH) differ by one: a
-   vector of exactly i32::MAX good characters is accepted by From<Vec<u32>> but is not is_good *)
+(* D12 (repaired): in the pinned code the length bounds of make (n > MAX_LENGTH panics) and is_good
+   (n < MAX_LENGTH) differed by one: a vector of exactly i32::MAX good characters was accepted by
+   From<Vec<u32>> but was not is_good (smt_is_good_prefix); with the inclusive bound it is *)
 Theorem C17_is_good_boundary : forall s, goodw s -> Z.of_nat (length s) = MAX_LENGTH ->
-  smt_make s = Some s /\ from_vec s = s /\ smt_is_good s = false.
+  smt_make s = Some s /\ from_vec s = s /\ smt_is_good_prefix s = false /\ smt_is_good s = true.
 Proof. exact is_good_boundary. Qed.
 Print Assumptions C17_is_good_boundary.
 
